@@ -5,7 +5,10 @@
 // name x modifier accepted by helpers.BuildSorter plus the sorters the
 // commands take directly from pkg/aggregation/sorting, sorter instances fresh
 // and re-used, the comparator axioms over all pairs and triples, and the same
-// data through the aggregators' sorted accessors.
+// data through the aggregators' sorted accessors. The calendar views (ref.go)
+// add every weekday and month name as full name and abbreviation in three
+// letter cases: small subsets in every permutation plus the complete 7-day and
+// 12-month sets.
 package main
 
 import (
@@ -18,8 +21,9 @@ import (
 )
 
 type Case struct {
-	Kind     string   `json:"kind"` // data | directions | reuse | pair | triple | history | aggregators
-	Spec     string   `json:"spec"` // sort name (directions: the group)
+	Kind     string   `json:"kind"`           // data | directions | reuse | pair | triple | history | aggregators
+	View     string   `json:"view,omitempty"` // the view of the key pool the case belongs to (replay: "" = main)
+	Spec     string   `json:"spec"`           // sort name (directions: the group)
 	Keys     []string `json:"keys"`
 	Values   []int64  `json:"values"`
 	Earlier  []string `json:"earlier,omitempty"` // reuse: what the instance sorted before
@@ -29,6 +33,9 @@ type Case struct {
 
 func mkCase(kind, spec string, data []nv) Case {
 	c := Case{Kind: kind, Spec: spec}
+	if curView != nil {
+		c.View = curView.name
+	}
 	for _, x := range data {
 		c.Keys = append(c.Keys, pool[x.k].s)
 		c.Values = append(c.Values, x.v)
@@ -178,7 +185,21 @@ func worker(w *runner.W) {
 	// ---- A. data sets: subsets x values x specs x permutations (+ re-use, aggregators)
 	for vi := range views {
 		vw := &views[vi]
-		for n := 0; n <= vw.maxSet(w.Quick()) && !expired; n++ {
+		curView = vw
+		sizes := []int{}
+		for n := 0; n <= vw.maxSet(w.Quick()); n++ {
+			sizes = append(sizes, n)
+		}
+		if vw.fullSet && len(vw.keys) > vw.maxSet(w.Quick()) {
+			// the complete set of the view (all 7 weekdays: every permutation;
+			// all 12 months: the bounded family of forEachBoundedPerm)
+			sizes = append(sizes, len(vw.keys))
+		}
+		for _, n := range sizes {
+			if expired {
+				break
+			}
+			n := n
 			forEachSubset(len(vw.keys), n, func(sub []int) bool {
 				idx := make([]int, n)
 				for i, j := range sub {
@@ -195,6 +216,9 @@ func worker(w *runner.W) {
 				for _, gname := range groupOrder {
 					group := groups[gname]
 					if vw.valueOnly && group[0].mode != "value" {
+						continue
+					}
+					if vw.calendarOnly && group[0].mode != "contextual" && group[0].mode != "date" {
 						continue
 					}
 					for _, vals := range valueAssignments(group[0].mode, n, vw) {
@@ -310,11 +334,15 @@ func worker(w *runner.W) {
 	// ---- B. comparator axioms over every view
 	for vi := range views {
 		vw := &views[vi]
+		curView = vw
 		for _, sp := range specs {
 			vals := []int64{1}
 			if sp.mode == "value" {
 				vals = vw.values
 			} else if vw.valueOnly {
+				continue
+			}
+			if vw.calendarOnly && sp.mode != "contextual" && sp.mode != "date" {
 				continue
 			}
 			for _, a := range vw.keys {
@@ -383,6 +411,12 @@ func replay(w *runner.W, raw json.RawMessage) {
 	var c Case
 	if err := json.Unmarshal(raw, &c); err != nil {
 		panic(err)
+	}
+	curView = &views[0]
+	for i := range views {
+		if views[i].name == c.View {
+			curView = &views[i]
+		}
 	}
 	data := c.data()
 	if c.Kind == "directions" {
@@ -455,10 +489,16 @@ func main() {
 				if vw.valueOnly {
 					only = ", value sorts only, no re-use"
 				}
+				if vw.calendarOnly {
+					only = ", contextual and date sorts only (all their spellings, modifiers and package constructors)"
+				}
+				if vw.fullSet && len(vw.keys) > vw.maxSet(quick) {
+					only += fmt.Sprintf(", plus the complete set of %d keys", len(vw.keys))
+				}
 				vs = append(vs, fmt.Sprintf("view %s: keys %v, subsets of size 0..%d, value-sort totals %v%s", vw.name, names, vw.maxSet(quick), vw.values, only))
 			}
 			_ = ks
-			return fmt.Sprintf("key pool of %d keys in %d views (%s); inside each view: every subset up to the view's size (value sorts: every assignment of the view's totals to the keys, 4 patterns over {1,2} for sets of 5; name sorts: one alternating 1,2 assignment) x every permutation handed to sorting.SortBy x %d sorter specs: helpers.BuildSorter names {text,'',numeric,contextual,context,date,value} x {'',:asc,:desc,:rev,:reverse}, 3 mixed-case spellings, and the package sorters used by pkg/csv and cmd/reduce (NVValueSorter, NVNameSorter, NVSmartSorter, ByName, ByContextual, Reverse(ByContextual), ByDateWithContextual), each permutation with a fresh sorter instance: one output sequence per data set, semantic clause of the mode on it, direction relations inside each name group; re-use of one instance (specs without aliases; value sorts with the all-1 and the alternating totals): first every permutation of the same data or of the data minus one key (sets up to %d), or any ordered pair of keys of the view (sets up to %d), then every permutation of the data; the same data through MatchCounter.ItemsSortedBy, SubKeyCounter.ItemsSorted, TableAggregator.OrderedRows/OrderedColumns and AccumulatingGroup.Groups (with and without sort expression) in two arrival orders (sets up to %d, only where the canonical sequence exists); comparator axioms with a fresh instance per decision on all ordered pairs and triples of distinct keys of each view (value sorts: all totals of the view), and every decision repeated on an instance that made any one other comparison before (all 4-tuples of the view). evaluation = one (spec, data set) with all its permutations, or one (spec, first key) axiom block; non-trivial = at least 2 keys", len(pool), len(views), strings.Join(vs, "; "), len(specs), b.reuseSame, b.reuseOther, b.agg)
+			return fmt.Sprintf("key pool of %d keys in %d views (%s); inside each view: every subset up to the view's size (value sorts: every assignment of the view's totals to the keys, 4 patterns over {1,2} for sets of 5; name sorts: one alternating 1,2 assignment) x every permutation handed to sorting.SortBy (data sets of up to %d keys: all n! permutations; the complete 12-month sets: every arrangement i -> (o+i*s) mod 12 of the calendar order for every offset o and every stride s coprime to 12, i.e. all rotations, all rotations of the reversal and the stride-5/7 interleavings, and each of them with every adjacent transposition: 576 permutations) x %d sorter specs: helpers.BuildSorter names {text,'',numeric,contextual,context,date,value} x {'',:asc,:desc,:rev,:reverse}, 3 mixed-case spellings, and the package sorters used by pkg/csv and cmd/reduce (NVValueSorter, NVNameSorter, NVSmartSorter, ByName, ByContextual, Reverse(ByContextual), ByDateWithContextual), each permutation with a fresh sorter instance: one output sequence per data set, semantic clause of the mode on it, direction relations inside each name group; re-use of one instance (specs without aliases; value sorts with the all-1 and the alternating totals): first every permutation of the same data or of the data minus one key (sets up to %d), or any ordered pair of keys of the view (sets up to %d), then every permutation of the data; the same data through MatchCounter.ItemsSortedBy, SubKeyCounter.ItemsSorted, TableAggregator.OrderedRows/OrderedColumns and AccumulatingGroup.Groups (with and without sort expression) in two arrival orders (sets up to %d, only where the canonical sequence exists); comparator axioms with a fresh instance per decision on all ordered pairs and triples of distinct keys of each view (value sorts: all totals of the view), and every decision repeated on an instance that made any one other comparison before (all 4-tuples of the view). evaluation = one (spec, data set) with all its permutations, or one (spec, first key) axiom block; non-trivial = at least 2 keys", len(pool), len(views), strings.Join(vs, "; "), allPermsUpTo, len(specs), b.reuseSame, b.reuseOther, b.agg)
 		},
 		Assumptions: func(string) []string {
 			return []string{
@@ -466,6 +506,7 @@ func main() {
 				"hash-map iteration order inside the aggregators is chosen by the Go runtime; the aggregator accessors are therefore only compared where every permutation sorts to one sequence, so the verdict cannot depend on it",
 				"which weekday starts the week is not fixed by the statement: Sunday-first and Monday-first are both accepted; no order is demanded of `text`, of mixtures, or of what contextual/date do with keys outside their domain beyond determinism and the order axioms",
 				"keys outside the pool (other date layouts, time zones, localized names) are not covered",
+				"the calendar views hold every weekday and every month as full name and as 3-letter abbreviation, each in lower case, Capitalised and UPPER case, one view per spelling form plus two views per set in which neighbouring names have different forms; a set of such names is a homogeneous set of weekday (month) names and `contextual` must order it by calendar position whatever the letter case; in a signature the spelling form follows the input class (all-weekday/full-name-capitalised). The longer abbreviations the sorter also knows (tues, thur, thurs, sept) are not demanded",
 			}
 		},
 		Worker:         worker,
